@@ -388,3 +388,26 @@ func VfC10_Slab() {
 		nd.Cover("both-nonempty")
 	}
 }
+
+// VfC10_BtoiLong: beyond the fast path (10..20 characters, here: an optional sign and decimal
+// digits only, so that the executor does not fork per character class) btoi64 still agrees with
+// strconv.ParseInt, including the int64 overflow boundary at 19 digits.
+func VfC10_BtoiLong() {
+	l := nd.Concrete(nd.IntRange("len", 10, nd.Param("maxlen", 20)))
+	b := nd.Bytes("d", l)
+	for i := range b {
+		if i == 0 {
+			nd.Assume(b[i] == '-' || (b[i] >= '0' && b[i] <= '9'))
+		} else {
+			nd.Assume(b[i] >= '0' && b[i] <= '9')
+		}
+	}
+	nd.PanicLabel("btoi64")
+	got, gerr := btoi64(b)
+	want, werr := strconv.ParseInt(string(b), 10, 64)
+	nd.Assert((gerr == nil) == (werr == nil), "btoi64 accepts exactly what strconv.ParseInt accepts (long numbers)")
+	if gerr == nil && werr == nil {
+		nd.Cover("accepted")
+		nd.Assert(got == want, "btoi64 value equals strconv.ParseInt value (long numbers)")
+	}
+}
